@@ -49,14 +49,3 @@ func InstallFromHelper(t *d.T) {
 	t.Install(
 		d.Helper())
 }
-
-// wideSignature: reported type uses on interior lines of a signature broken over several lines.
-func wideSignature(
-	m d.Mock,
-	o *d.Only,
-	n int,
-) (
-	r d.Only,
-) {
-	return r
-}
